@@ -42,7 +42,23 @@ func pingCallback(w *World) *ssa.Function {
 func endpointPickers(w *World, cb *ssa.Function) []*endpointPicker {
 	seen := map[*ssa.Function]bool{}
 	var out []*endpointPicker
-	for _, f := range withAnon(cb) {
+	// the callback, and the same-package helpers it evaluates the result in (`err = evaluatePingResult(&r, result, err)`)
+	scan := withAnon(cb)
+	for g := range w.syncCallees(cb, 2, false) {
+		if g != cb && g.Blocks != nil && pkgPathOf(g) == pkgPathOf(cb) && g.Parent() == nil {
+			takes := false
+			for _, q := range g.Params {
+				if isGocbNamed(q.Type(), "PingResult") {
+					takes = true
+				}
+			}
+			if takes && !(g.Signature.Results().Len() == 1 && isStringType(g.Signature.Results().At(0).Type())) {
+				scan = append(scan, g)
+			}
+		}
+	}
+	sort.Slice(scan, func(i, j int) bool { return fname(scan[i]) < fname(scan[j]) })
+	for _, f := range scan {
 		allInstrs(f, func(in ssa.Instruction) {
 			cc := callOf(in)
 			if cc == nil {
@@ -95,9 +111,37 @@ func endpointPickers(w *World, cb *ssa.Function) []*endpointPicker {
 					}
 				case *ssa.Parameter:
 					ep.why = "the service key is a parameter of a helper, not of the picker"
-					for i, q := range p.Params {
-						if q == k {
-							ep.svcParam, ep.why = i, ""
+					// a lookup helper of the unit (`valueOr(result.Services, serviceType, nil)`): what it is handed for the key
+					key := ssa.Value(k)
+					for hop := 0; hop < 2; hop++ {
+						kp, isP := key.(*ssa.Parameter)
+						if !isP || kp.Parent() == p {
+							break
+						}
+						var arg ssa.Value
+						nSites := 0
+						for _, g := range ep.unit {
+							for _, ci := range callsIn(g, kp.Parent()) {
+								nSites++
+								arg = argOfParam(ci.Common(), kp.Parent(), kp)
+							}
+						}
+						if nSites != 1 || arg == nil {
+							break
+						}
+						key = unwrap(arg)
+					}
+					switch kk := key.(type) {
+					case *ssa.Const:
+						if kk.Value != nil && kk.Value.Kind() == constant.Int {
+							ep.svc, _ = constant.Int64Val(kk.Value)
+							ep.why = ""
+						}
+					case *ssa.Parameter:
+						for i, q := range p.Params {
+							if q == kk {
+								ep.svcParam, ep.why = i, ""
+							}
 						}
 					}
 				default:
@@ -1148,4 +1192,80 @@ func (w *World) loggedForwarder(cl *ssa.Function) *ssa.Function {
 		return nil
 	}
 	return target
+}
+
+// observersFreshPerOpen (C06): the snapshot a data event is tested against is the one announced on its own stream. Every
+// observer put into the stream's observer map is the result of the observer constructor, called right there — no
+// observer (with the snapshot, branch id and catch-up state of an earlier stream) is carried over a Close.
+func observersFreshPerOpen(c *Ctx, id string) {
+	w := c.W
+	oi := observerInfo(c, id)
+	var ctors []*ssa.Function
+	for _, fn := range w.ModFuncs {
+		if fn.Parent() == nil && len(allocsOf(fn, oi.typ)) > 0 {
+			ctors = append(ctors, fn)
+		}
+	}
+	n := 0
+	for _, fn := range w.ModFuncs {
+		allInstrs(fn, func(in ssa.Instruction) {
+			cc := callOf(in)
+			m, recv := csmapMethod(cc)
+			if m == "" || !csmapMutators[m] || !strings.Contains(recv.Type().String(), "Observer]") || isWrapperMethod(rootFn(fn)) {
+				return
+			}
+			n++
+			c.see(fn)
+			construct := "observer-map:" + m + "@" + fname(fn)
+			if m != "Store" || len(cc.Args) != 3 {
+				c.Fail(id, construct, in.Pos(), "the observer map is changed with %s", m)
+				return
+			}
+			v := unwrap(cc.Args[2])
+			ok := false
+			// the constructor itself, or a same-package helper that returns the constructor's result
+			for depth := 0; depth < 3 && !ok; depth++ {
+				call, isCall := v.(*ssa.Call)
+				if !isCall || call.Common().StaticCallee() == nil {
+					break
+				}
+				g := call.Common().StaticCallee()
+				for _, k := range ctors {
+					if g == k {
+						ok = true
+					}
+				}
+				if ok {
+					break
+				}
+				// an exported constructor that delegates, or a helper of the stream: follow its single return
+				var ret ssa.Value
+				nRet := 0
+				if g.Blocks != nil && w.inModule(g) {
+					allInstrs(g, func(x ssa.Instruction) {
+						if r, isR := x.(*ssa.Return); isR && x.Parent() == g && len(r.Results) == 1 {
+							nRet++
+							ret = unwrap(r.Results[0])
+						}
+					})
+				}
+				if nRet != 1 {
+					break
+				}
+				if al := asAlloc(ret); al != nil && recvTypeName(al.Type()) == oi.typ.Obj().Name() {
+					ok = true
+					break
+				}
+				v = ret
+			}
+			c.Check(ok, id, construct, in.Pos(), "every observer stored is built by the observer constructor at that place", "the observer map receives "+w.Origin(cc.Args[2])+" — not a freshly constructed observer: snapshot, branch id and catch-up state of an earlier stream would be carried into this one")
+		})
+	}
+	c.Floor(id, 1)
+	c.need(n >= 1, id, "stores into the stream's observer map")
+}
+
+func isStringType(t types.Type) bool {
+	b, ok := t.Underlying().(*types.Basic)
+	return ok && b.Kind() == types.String
 }
